@@ -126,7 +126,8 @@ def gen_activities(rng, well_formed=True):
             elif m < 0.3:
                 a["sd"] = rng.choice(["2023-00-10", "junk", "2023-1-1"])
             elif m < 0.4:
-                a["cur"] = rng.choice(["EUR", "GBP"])
+                # another currency; for an FXT row also the pair's other currency (two CAD / two USD rows)
+                a["cur"] = rng.choice(["EUR", "GBP"]) if a["kind"] != "fxt" or rng.random() < 0.4 else rng.choice(["CAD", "USD"])
             elif m < 0.5:
                 a["qty"] = rng.choice(["0", "abc", "", "1.2.3", "TRUE"])
             elif m < 0.58:
